@@ -242,7 +242,7 @@ fn main() {
     let tables = bridge::tables();
     let all_steps: Vec<u8> = (0..bridge::STEPS.len() as u8).collect();
     // (step set, exact length, option set); step indices refer to bridge::STEPS
-    // n=0 g=1 w=2 J=3 b=4 e=5 E=6 d=7
+    // n=0 g=1 w=2 J=3 b=4 e=5 E=6 d=7 L=8
     let plan: Vec<(Vec<u8>, usize, usize)> = if let Ok(l) = std::env::var("C19_BRIDGE_LEN") {
         vec![(all_steps.clone(), l.parse().unwrap_or(3), 0)]
     } else if thorough {
@@ -250,11 +250,11 @@ fn main() {
             (all_steps.clone(), 6, 0),
             (all_steps.clone(), 5, 1),
             (all_steps.clone(), 5, 2),
-            (vec![0, 3, 4, 5, 6, 7], 7, 0),
-            (vec![0, 3, 4, 6], 8, 0),
+            (vec![0, 3, 4, 5, 6, 7, 8], 7, 0),
+            (vec![0, 3, 4, 6, 8], 8, 0),
         ]
     } else {
-        vec![(all_steps.clone(), 5, 0), (all_steps.clone(), 4, 1), (all_steps.clone(), 4, 2), (vec![0, 3, 4, 6, 7], 6, 0)]
+        vec![(all_steps.clone(), 5, 0), (all_steps.clone(), 4, 1), (all_steps.clone(), 4, 2), (vec![0, 3, 4, 6, 7, 8], 6, 0)]
     };
     struct Job<'a> {
         table: &'a bridge::Table,
